@@ -23,6 +23,9 @@ BOUNDED = {
     "C01": [
         {"name": "c01_roundtrip", "script": "c01_roundtrip.py", "args": []},
     ],
+    "C12": [
+        {"name": "c12_trees", "script": "c12_trees.py", "args": []},
+    ],
     "C13": [
         {"name": "c13_graphs", "script": "c13_graphs.py", "args": []},
     ],
